@@ -37,6 +37,47 @@ def eq_fields(c, body):
     return out
 
 
+def eq_shape(c, body):
+    """A hand-written `eq` must be the conjunction of its field equalities: an `&&` tree whose leaves are `a.f == b.f`,
+    `PartialEq::eq(&a.f, &b.f)`, `ptr::eq(..)` or `true`.  `||`, `!=`, `!` or anything else lets two values that differ in a
+    field compare equal (mutation scan: `&&` -> `||` in seq!'s eq survived every check and the test suite).  None if it is."""
+    e = body["value"]
+    lets = {}
+    for n in walk(e):
+        if n["k"] == "block":
+            for st in n.get("stmts", []):
+                if st["k"] == "let" and "init" in st and st["pat"].get("k") == "bind":
+                    lets[st["pat"]["var"]] = st["init"]
+
+    def peel(x):
+        while x["k"] in ("addr_of", "use", "cast") or (x["k"] == "block" and "tail" in x and all(st["k"] == "let" for st in x.get("stmts", []))):
+            x = x["tail"] if x["k"] == "block" else x["e"]
+        return x
+
+    def leaf_ok(x):
+        x = peel(x)
+        if x["k"] == "local" and x["var"] in lets:
+            return leaf_ok(lets[x["var"]])
+        if x["k"] == "lit" and (x.get("v") or {}).get("bool") in (True, "true"):
+            return None
+        if x["k"] == "binary" and x["op"] == "&&":
+            return leaf_ok(x["l"]) or leaf_ok(x["r"])
+        if x["k"] == "binary" and x["op"] == "==":
+            return None
+        if x["k"] in ("call", "mcall") and x.get("callee"):
+            p = strip_generics(x["callee"]["path"])
+            if p.endswith("ptr::eq") or p.endswith("PartialEq::eq"):
+                return None
+            if p.endswith("Iterator::all") or p.endswith("Iterator::eq"):
+                return None
+        if x["k"] == "binary":
+            return "`eq` combines its comparisons with `%s`: not a conjunction of field equalities" % x["op"]
+        if x["k"] == "unary":
+            return "`eq` negates a comparison (`%s`)" % x["op"]
+        return "`eq` contains a `%s` expression where a field equality is expected" % x["k"]
+    return leaf_ok(e)
+
+
 def hash_fields(c, body):
     out = []
     for n in walk(body["value"]):
@@ -248,6 +289,10 @@ def run(ctx):
                         continue
                     got = fn(c, b)
                     manual.setdefault(path, {})[tr] = (got, im)
+                    if tr == EQ:
+                        why = eq_shape(c, b)
+                        if why:
+                            rf.violate("PartialEq for %s: shape" % path, why, im.loc)
         for path, d in sorted(manual.items()):
             if path not in impls_by_type:
                 continue
